@@ -124,6 +124,33 @@ def check_graph(model, impl, text):
     return None
 
 
+def check_history(impl, text, vals):
+    """graphs of a template and of programs instantiated from it, in several orders of building them: every graph carries the
+    arguments of the program it was built from (-> message or None)"""
+    from blackbird.utils import to_DiGraph
+    t = impl.loads(text)
+
+    def nodes_ok(prog, what):
+        G = to_DiGraph(prog)
+        if G.number_of_nodes() != len(prog.operations):
+            return "%s: %d nodes for %d operations" % (what, G.number_of_nodes(), len(prog.operations))
+        for i, o in enumerate(prog.operations):
+            d = G.nodes[i]
+            if d.get("name") != o["op"] or repr(list(d.get("args", []))) != repr(list(o.get("args", []))) \
+                    or repr(dict(d.get("kwargs", {}))) != repr(dict(o.get("kwargs", {}))) or list(d.get("modes", ())) != list(o["modes"]):
+                return "%s: node %d carries %r %r %r | %r, the operation is %r" % (what, i, d.get("name"), d.get("args"), d.get("kwargs"), d.get("modes"), o)
+        return None
+    m = nodes_ok(t, "template")
+    if m:
+        return m
+    for k, v in enumerate(vals):
+        inst = t(**v)
+        m = nodes_ok(inst, "instance %d (after the graph of the template was built)" % k) or nodes_ok(t, "template again") or nodes_ok(inst, "instance %d again" % k)
+        if m:
+            return m
+    return None
+
+
 def topo_pred(impl, text, rng):
     import networkx as nx
     from blackbird.utils import to_DiGraph
@@ -187,6 +214,28 @@ def run(tier, seed):
                 res.violate("to_DiGraph: " + msg, {"check": "graph", "text": text})
                 if len(res.violations) >= 5:
                     break
+        # graphs along a history: template -> graph -> instantiate -> graph (a graph belongs to the program it was built from)
+        for k in range(30 if quick else 1000):
+            pars = rng.sample(["alpha", "beta", "y", "r"], rng.randint(1, 2))
+            lines = ["name g", "version 1.0", ""]
+            for j in range(rng.randint(2, 6)):
+                q = rng.choice(pars)
+                lines.append(rng.choice(["Sgate({%s}, 0.1) | %d", "Dgate(0.5, phi=2 * {%s}) | %d", "Rgate({%s} + 1) | %d", "MeasureX | %d", "Zgate(2 * q0, {%s}) | %d"]).replace("{%s}", "{" + q + "}") % rng.randrange(3))
+            for q in pars:
+                lines.append("Rgate({%s}) | 0" % q)
+            text = "\n".join(lines) + "\n"
+            vals = [{q: round(rng.uniform(0.1, 2.0), 3) for q in pars} for _ in range(2)]
+            try:
+                msg = check_history(impl, text, vals)
+            except Exception as e:  # noqa: BLE001
+                msg = None
+                res.count("history-skipped:%s" % type(e).__name__)
+            res.case(text + repr(vals), True, None)
+            res.count("template-history")
+            if msg:
+                ok = False
+                res.violate("to_DiGraph: " + msg, {"check": "history", "text": text, "values": vals})
+                break
         res.oblige("correspondence: to_DiGraph = model edges/nodes and the graph axioms hold on every generated program", "correspondence", ok)
         model.close()
     else:
@@ -203,6 +252,10 @@ def replay(rep):
     import impl
     fw.build()
     model = fw.Model()
+    if rep["input"].get("check") == "history":
+        msg = check_history(impl, rep["input"]["text"], rep["input"]["values"])
+        print(msg)
+        return 1 if msg else 0
     msg = check_graph(model, impl, rep["input"]["text"])
     print(msg)
     return 1 if msg else 0
